@@ -13,6 +13,7 @@ import (
 	"context"
 	"errors"
 	"fmt"
+	"github.com/drand/drand/v2/common/key"
 	"os"
 	"strings"
 	"time"
@@ -88,7 +89,10 @@ func runOne(c cfg, devs []vrt.Dev, labels bool) *explore.Exec {
 				return nil
 			}
 		}
-		ss, err := beacon.NewSchemeStore(ctx, mon, fix.Scheme(c.Chained))
+		// the handler's stack: callback -> append -> scheme -> discrepancy (timing statistics) -> database
+		grp := &key.Group{Period: 3 * time.Second, GenesisTime: vrt.Epoch.Unix(), ID: "default", Scheme: fix.Scheme(c.Chained)}
+		ds := beacon.VerifNewDiscrepancyStore(mon, l, grp, &vrt.Clock{})
+		ss, err := beacon.NewSchemeStore(ctx, ds, fix.Scheme(c.Chained))
 		if err != nil {
 			setupErr = err
 			return
